@@ -131,6 +131,22 @@ SumLen == LET RECURSIVE Sum(_)
           IN Sum(Shards)
 Len_(r) == r = SumLen /\ UNCHANGED <<lru, loc, last>>
 
+(* other ways to look at the same map: none changes content or recency *)
+AllKeys == UNION { LKeys(lru[s]) : s \in Shards }
+IsEmpty_(r) == r = (SumLen = 0) /\ UNCHANGED <<lru, loc, last>>
+(* keys(): every stored key exactly once *)
+Keys_(r) == NoDup(r) /\ SeqRange(r) = AllKeys /\ UNCHANGED <<lru, loc, last>>
+(* for_each_shard(f): f ran once per shard; it reported whether the shard contains k and the shard's len. *)
+(* hits = number of shards that contain k; lens = the reported lengths in any order                        *)
+ForEachShard(k, hits, lens) ==
+    /\ hits = Cardinality({ s \in Shards : LHas(lru[s], k) })
+    /\ Len(lens) = Cardinality(Shards)
+    /\ \A n \in SeqRange(lens) \cup { Len(lru[s].order) : s \in Shards } :
+          Cardinality({ i \in 1..Len(lens) : lens[i] = n }) = Cardinality({ s \in Shards : Len(lru[s].order) = n })
+    /\ UNCHANGED <<lru, loc, last>>
+(* rebalance() and other maintenance: nothing observable changes *)
+Maintenance == UNCHANGED <<lru, loc, last>>
+
 (* clear(): everything gone.  Callbacks: none required; any made must be for entries that were there *)
 AllEntries == UNION { { <<k, lru[s].val[k]>> : k \in LKeys(lru[s]) } : s \in Shards }
 Clear(ev) ==
@@ -172,4 +188,10 @@ BCacheState(st, max, rec, id, live) ==
     /\ Cardinality(live) <= max
 BAfter(st, rec, id, live) == [i \in live |-> IF i = id THEN rec ELSE st[i]]
 BGet(st, id, r) == r = (IF id \in DOMAIN st THEN Some(st[id]) ELSE None)
+(* zero-path data attached to a live state: zp: id -> path bytes.  It dies with the state (removal,   *)
+(* eviction, clear) and is never inherited by a later state that is given the same id.                *)
+RECURSIVE Concat(_)
+Concat(ss) == IF ss = <<>> THEN <<>> ELSE ss[1] \o Concat(Tail(ss))
+ZpKeep(zp, live) == [i \in DOMAIN zp \cap live |-> zp[i]]
+ZpSet(zp, id, path) == [i \in DOMAIN zp \cup {id} |-> IF i = id THEN path ELSE zp[i]]
 =============================================================================
